@@ -1573,9 +1573,20 @@ class Exec:
         pnames = self.callee_param_names(cf, cc, ins['call'])
         ptypes = self.callee_param_types(cf, cc)
         env = {}
+        copy_back = []
         for pn, pt, a in zip(pnames, ptypes, actuals):
             if isinstance(a, Loc):
-                raise Unsupported('address passed to ' + callee)
+                # the address of a field passed to a function under contract: the callee was verified with the pointer
+                # referring to a cell of its own; that is this call iff nothing the callee can reach touches the field by
+                # name (checked over the static call graph). Then: copy the field into a fresh cell, call, copy it back.
+                if a.kind != 'field' or not self.field_untouched_by(callee, a.stype, a.fname):
+                    raise Unsupported('address passed to ' + callee)
+                ref = vc.define(self.nm('addrcell'), 'Int', self.st.alloc)
+                self.st.alloc = vc.define(self.nm('alloc'), 'Int', '(+ %s 1)' % ref)
+                cell = Loc('cell', a.ts, ref=ref)
+                vc.store(self.st, cell, vc.load(self.st, a))
+                copy_back.append((a, cell))
+                a = V(ref, 'Int', pt)
             a = self.adapt(a, pt)
             env[pn] = V(a.term, a.sort, pt)
         if cf is not None and cc.recv_name and cf.params:
@@ -1658,8 +1669,43 @@ class Exec:
                 raise ContractError('%s ensures %r: %s' % (cname, cl.text, e))
             vc.assume(g.term, self.reach)
         self.st = post
+        for loc, cell in copy_back:
+            self.frame_check(loc, ins)
+            vc.store(self.st, loc, vc.load(self.st, cell))
         self.apply_uses(site, renv)
         self.set_results(ins, rs)
+
+    def field_untouched_by(self, fn, stype, fname):
+        """no function reachable from fn in the module (static calls, closures, every implementor of an invoked method)
+        takes the address of field stype.fname"""
+        seen, todo = set(), [fn]
+        while todo:
+            g = todo.pop()
+            if g in seen:
+                continue
+            seen.add(g)
+            gf = self.prog.funcs.get(g)
+            if gf is None:
+                continue
+            for b in gf.blocks:
+                for i in b['instrs']:
+                    if i['op'] == 'FieldAddr' and i['stype'] == stype and i['fname'] == fname:
+                        return False
+                    if i['op'] == 'MakeClosure':
+                        todo.append(i['fn']['n'])
+                    if i['op'] in ('Call', 'Defer'):
+                        c = i['call']
+                        if c.get('static'):
+                            todo.append(c['static'])
+                        elif c.get('invoke'):
+                            for impl in self.prog.implementors(c['iface']):
+                                m = self.prog.method_fn(impl, c['method'])
+                                if m:
+                                    todo.append(m)
+                        elif (c.get('fn') or {}).get('k') != 'builtin':
+                            # a function value: anything could be behind it
+                            return False
+        return True
 
     def apply_uses(self, site, env):
         pass
